@@ -199,7 +199,17 @@ pub fn check_case(c: &Case, st: &mut Stats, shard: usize) -> Check {
     let mut ins: Vec<(CoinID, Option<usize>)> = (0..locks.len()).map(|i| (CoinID::new(fh, i as u8), Some(i))).collect();
     ins.push((CoinID::new(fh, change_idx as u8), None));
     crate::plan::shuffle(&mut ins, c.order);
-    let mut tx = Transaction::new(TxKind::Normal);
+    // the spender is usually an ordinary transaction; a coin's covenant must be honoured by every other kind too
+    // (a faucet is exempt from balancing, not from authorisation; pool requests are ordinary until sealing)
+    let kind = match (c.net / 3) % 12 {
+        0 | 1 => TxKind::Faucet,
+        2 => TxKind::Swap,
+        3 => TxKind::LiqDeposit,
+        4 => TxKind::LiqWithdraw,
+        _ => TxKind::Normal,
+    };
+    st.class(&format!("spender-kind-{:?}", kind));
+    let mut tx = Transaction::new(kind);
     tx.inputs = ins.iter().map(|x| x.0).collect();
     let mut covs: Vec<Vec<u8>> = vec![CovSpec::True.bytes()];
     for l in locks.iter() {
@@ -451,7 +461,7 @@ pub fn run(ctx: &Ctx) -> (Outcome, String, Option<bool>) {
             r
         },
     );
-    let rule = "Generated: 1-5 coins locked by covenants from the families legacy signature (slot 0), new signature (slot = input position), hash-lock on tx.data, time-lock on the previous header's height, creation-height bound, spender-index bound, value bound, denomination + additional-data bound, parent-output-index bound, constant false / empty stack / non-integer result / failing program, undecodable bytes, and type-aware random programs; created by one funding transaction at height >= 1 on Custom02/Custom08/Testnet, then spent together with a fee-paying coin by one transaction with the inputs in a generated order, and tampered in 9 ways (signature bit flip, wrong key, swapped slots, signatures dropped, outputs or data changed after signing, covenant omitted / replaced by garbage / by another program). Balance and fee are valid by construction. Oracle: apply_tx accepts <=> for every input the transaction carries bytes hashing to the coin's covenant hash that decode and that RefVM evaluates to a truthy value on (transaction, that input's id, value, denomination, additional data, creation height, position, previous header). Non-trivial = a spend of >=2 inputs whose verdicts differ, or any tampered spend; distinct by (families in input order, tamper, verdict vector).".to_string();
+    let rule = "Generated: 1-5 coins locked by covenants from the families legacy signature (slot 0), new signature (slot = input position), hash-lock on tx.data, time-lock on the previous header's height, creation-height bound, spender-index bound, value bound, denomination + additional-data bound, parent-output-index bound, constant false / empty stack / non-integer result / failing program, undecodable bytes, and type-aware random programs; created by one funding transaction at height >= 1 on Custom02/Custom08/Testnet, then spent together with a fee-paying coin by one transaction (ordinary in 7 of 12 cases, otherwise of kind faucet, swap, deposit or withdrawal) with the inputs in a generated order, and tampered in 9 ways (signature bit flip, wrong key, swapped slots, signatures dropped, outputs or data changed after signing, covenant omitted / replaced by garbage / by another program). Balance and fee are valid by construction. Oracle: apply_tx accepts <=> for every input the transaction carries bytes hashing to the coin's covenant hash that decode and that RefVM evaluates to a truthy value on (transaction, that input's id, value, denomination, additional data, creation height, position, previous header). Non-trivial = a spend of >=2 inputs whose verdicts differ, or any tampered spend; distinct by (families in input order, tamper, verdict vector).".to_string();
     (out, rule, None)
 }
 
